@@ -57,6 +57,17 @@ func runC03(e *core.Env) {
 				text = c03Tabify(r, d)
 			}
 		}
+		if k := core.Hash64("c03-size", fmt.Sprint(e.Seed, i)) % 250; k < 2 && text != "" {
+			// a big file behind the generated records: more than a thousand records, or a line beyond 64 KiB
+			if !strings.HasSuffix(text, "\n") {
+				text += "\n"
+			}
+			if k == 0 {
+				text += "\n" + manyRecordsText(r, r.PickInt(1001, 1200))
+			} else {
+				text += "\n" + longLineText(r, r.PickInt(65536, 70000))
+			}
+		}
 		file := e.Dir + "/c03.klg"
 		model := d.Doc
 		for k := 0; k < 3; k++ {
